@@ -609,6 +609,14 @@ def run(ctx):
 
     _ls = [ctx.corpus.func('repository', 'Repository.list_files'), ctx.corpus.func('repository', 'Repository.list_snapshots'), ctx.corpus.func('repository', 'Repository._load_snapshots')]
     leftover_from_finished_loop(ctx, 'C15.R1', _ls + [n for g in _ls for n in g.all_nested()], 'listing rows')
+    from .shared import late_binding_closures
+
+    # the listings show every snapshot the store holds: the adapter's listing reaches what exists() / download() reach
+    from ..report import Relabel as _RL15
+    from .c13 import r3b_local_prefix_scan
+
+    r3b_local_prefix_scan(_RL15(ctx, 'C15.R1'))
+    late_binding_closures(ctx, 'C15.R5', [m for m in repo_cls(ctx.corpus).methods.values()] + [n for m in repo_cls(ctx.corpus).methods.values() for n in m.all_nested()], 'listings')
     r1_one_name(ctx)
     r1b_header_follows_columns(ctx)
     r2_order(ctx)
